@@ -565,5 +565,9 @@ def r5(chk):
            "the NEB assorter is built from winner_func (first preference for the winner) and loser_func = rcv_lfunc_wo(contest, winner, loser) "
            "in the winner / loser slots, for the assertion's own pair", node=maj)
     chk.borrow(c06.r5, {"C06.R5": "C14.R5"})
+    # "the assorter mean exceeds 1/2 exactly when the tally comparison holds": the mean is over the cards that carry the contest
+    # (C02.R5), numerator and denominator alike
+    from . import c02 as _c02
+    chk.borrow(_c02.r5_mean, {"C02.R5": "C14.R5"})
     chk.obs = [o for o in chk.obs if not (o.rule == "C14.R5" and not (o.key.startswith("late-binding") or o.key.startswith("nen-assorter")
-                                                                      or o.key in ("default-combination", "neb-slots")))]
+                                                                      or o.key in ("default-combination", "neb-slots", "mean-population")))]
